@@ -387,6 +387,107 @@ theorem headless_run (O : Ops δ) (m : Bool) (rs : List (Rec × Bool)) (hr : ∀
     obtain ⟨h1, h2⟩ := handleRecord_headless O m s x.1 x.2 hc h (hr x (by simp))
     exact ih (fun y hy => hr y (by simp [hy])) _ h2 h1
 
+/-- one record through a session without decryptor, when the record is no ServerHello: still no decryptor -/
+theorem handleRecord_no_sh (O : Ops δ) (m : Bool) (s : St δ) (r : Rec) (srv : Bool)
+    (h : Keyless s) (hr : ¬ LooksHello 0x02 r) : Keyless (handleRecord O m s r srv) := by
+  unfold handleRecord handleRecordRaw
+  cases ht : r.typ with
+  | none => exact h
+  | some t =>
+    simp only
+    split
+    · rename_i h16
+      have hh : Keyless (handshakeRecord O m s r srv).st := by
+        unfold handshakeRecord
+        split
+        · rw [tryExcept_id_st]; exact handshakeFinished_keyless O m s r srv h
+        · cases hb : r.body with
+          | nil => exact h
+          | cons b0 rest =>
+            simp only
+            split
+            · exact keyless_of_eq rfl rfl h
+            · split
+              · rename_i _ hb2
+                exact absurd ⟨by rw [ht, h16], by rw [hb, hb2]; rfl⟩ hr
+              · rw [tryExcept_id_st]; exact handshakeFinished_keyless O m s r srv h
+      cases hrr : handshakeRecord O m s r srv with
+      | ok s1 => rw [hrr] at hh; exact keyless_pushMeta m s1 r srv hh
+      | raised s1 => rw [hrr] at hh; exact hh
+    · split
+      · have : (s.canDecrypt && s.dec.isSome) = false := by simp [h.1]
+        simp only [this]
+        exact h
+      · split
+        · simp only [Out.st]
+          have ha : ∀ lvl, Keyless (alert s lvl) := by
+            intro lvl; unfold alert; split
+            · exact h
+            · exact keyless_of_eq rfl rfl h
+          cases r.body with
+          | nil => exact keyless_pushMeta m s r srv h
+          | cons lvl _ => exact keyless_pushMeta m _ r srv (ha lvl)
+        · split
+          · simp only [Out.st]
+            cases srv
+            · exact keyless_pushMeta m _ r false (keyless_of_eq rfl rfl h)
+            · exact keyless_pushMeta m _ r true (keyless_of_eq rfl rfl h)
+          · exact h
+
+/-- **… and so does a session that sees the ClientHello but never a ServerHello** (the cut removed it, or it is damaged
+    beyond recognition): the decryptor is made in `handle_tls_server_hello` and nowhere else. -/
+theorem no_serverHello_run (O : Ops δ) (m : Bool) (rs : List (Rec × Bool)) (hr : ∀ x ∈ rs, ¬ LooksHello 0x02 x.1) :
+    Keyless (run O m St.init rs) := by
+  suffices ∀ s : St δ, Keyless s → Keyless (run O m s rs) from this St.init ⟨rfl, by simp [St.init]⟩
+  induction rs with
+  | nil => intro s h; exact h
+  | cons x rest ih =>
+    intro s h
+    simp only [run, List.foldl_cons]
+    exact ih (fun y hy => hr y (by simp [hy])) _ (handleRecord_no_sh O m s x.1 x.2 h (hr x (by simp)))
+
+theorem keyless_appOf {s : St δ} (h : Keyless s) : appOf s = [] := by
+  unfold appOf
+  rw [List.filter_eq_nil_iff]
+  intro e he
+  simp [(h.2 e he).1]
+
 end Headless
+
+section HeadlessConv
+open TLX.Session TLX.Props.C03 TLX.Props.C01Pipeline TLX.Lemmas.Pipeline
+
+variable (H : Crypto.Prims) (P : Cipher.Prims) (info : Nat → Pipeline.Info)
+
+/-- **C03, TLS victim, `cut-before` (the capture starts mid-connection) and handshake records lost.** A conversation for
+    which the reassemblers release no record that is taken for a ClientHello — the capture starts behind it — or none that
+    is taken for a ServerHello: whatever else it carries, whatever the key log,
+    * its session installs no decryptor and makes no application entry: NO plaintext and no ciphertext-as-plaintext is
+      exported;
+    * what `application_traffic` holds (only with `-a`) are the released records verbatim;
+    * without `-a` the conversation exports nothing at all: `Session.decrypt()` returns the empty list. -/
+theorem export_victim_headless_tls (c : Pipeline.Conn) (kl : List Keylog.Key)
+    (hr : (∀ x ∈ connRecs info c, ¬ LooksHello 0x01 x.1) ∨ (∀ x ∈ connRecs info c, ¬ LooksHello 0x02 x.1)) :
+    Keyless (Session.run (Pipeline.ops H P kl) c.opts.metadata Session.St.init (connRecs info c)) ∧
+    appOf (Session.run (Pipeline.ops H P kl) c.opts.metadata Session.St.init (connRecs info c)) = [] ∧
+    (c.opts.metadata = false → Pipeline.connOut H P info c kl = some []) := by
+  have hk : ∀ m, Keyless (Session.run (Pipeline.ops H P kl) m Session.St.init (connRecs info c)) := by
+    intro m
+    rcases hr with hr | hr
+    · exact headless_run _ m _ hr
+    · exact no_serverHello_run _ m _ hr
+  refine ⟨hk _, keyless_appOf (hk _), ?_⟩
+  intro hm
+  rw [connOut_eq, hm]
+  have h2 := Session.run_strip (Pipeline.ops H P kl) (Session.St.init : Session.St RecordLayer.Dec) (connRecs info c)
+  have : (Session.run (Pipeline.ops H P kl) false Session.St.init (connRecs info c)).traffic = [] := by
+    have h3 : (Session.St.init : Session.St RecordLayer.Dec).strip = Session.St.init := rfl
+    rw [h3] at h2
+    rw [← h2]
+    exact keyless_appOf (hk true)
+  rw [this]
+  rfl
+
+end HeadlessConv
 
 end TLX.Props.ExportFaults2
